@@ -32,6 +32,14 @@ Fixpoint wsum (ts ws : list car) (f : car -> car) : car :=
 Definition gh_core (ts ws : list car) (s m : car) (f : car -> car) : car :=
   wsum ts ws (fun t => f (s * t + m)).
 
+(* GaussHermiteQuadrature1D._apply(fn) (quadrature.py:46-49; reached by .double() .float()
+   .to(...) .cpu() .cuda()): locations := fn(locations); weights := fn(weights), fn elementwise
+   (a dtype cast / device move of a tensor).  The module state is the pair (locations, weights). *)
+Definition gh_apply (fn : car -> car) (q : list car * list car) : list car * list car :=
+  (map fn (fst q), map fn (snd q)).
+(* the plain sum of the weights (sqrt(pi) E[1] of the rule) *)
+Fixpoint lsum (ws : list car) : car := match ws with [] => 0 | w :: r => w + lsum r end.
+
 (* ---- polynomial arithmetic on coefficient lists *)
 Fixpoint padd (p q : list car) : list car :=
   match p, q with
